@@ -9,7 +9,7 @@ the real library under the schedule controller (harness/lib_interp.c); every tra
      and sleep queues before every step), and
  (2) judged by an independent oracle of the property itself (below): occupancy witness, counters,
      deadlock verdict, trylock rules, sleepers emit nothing."""
-import os, re, json
+import os, re, json, shutil
 import vlib, trace
 from props import sync_common
 
@@ -183,8 +183,8 @@ def oracle(case, r):
             st = _STATE.search(e.snap or "")
             if pid == "blockq.enq":
                 if e.ctx != "c":
-                    return "t%d enqueues itself on %s before its context is saved (blockq.enq outside the callback)" % (T, obj)
-                if mem is not None and T in mem:
+                    return "%s enqueues itself on %s before its context is saved (blockq.enq outside the callback)" % (val, obj)
+                if mem is not None and T is not None and T in mem:
                     return "t%d is already in the sleep queue of %s when its callback enqueues it" % (T, obj)
                 if T in cur and cur[T][0][0] in ("trylock", "timedlock"):
                     return "t%d blocks (blockq.enq) inside %s" % (T, " ".join(cur[T][0]))
@@ -248,6 +248,17 @@ def load_corpus():
     return res
 
 
+def build(ctx):
+    """shared build, then a private copy of the interpreter: the shared cache directory is pruned by
+    concurrent checks of other properties"""
+    exe, drv = sync_common.build(ctx)
+    mine = os.path.join(ctx.dir, "lib_interp")
+    shutil.copyfile(exe, mine + ".tmp")
+    os.chmod(mine + ".tmp", 0o755)
+    os.replace(mine + ".tmp", mine)
+    return mine, drv
+
+
 def run_cases_robust(ctx, exe, drv, texts):
     """sync_common.run_cases case by case; a run whose trace cannot even be parsed / projected (the library
     crashed or aborted in the middle of a line) becomes a result with no verdict instead of an exception"""
@@ -256,6 +267,8 @@ def run_cases_robust(ctx, exe, drv, texts):
         try:
             r = sync_common.run_cases(ctx, exe, drv, [t])[0]
         except Exception as ex:                                   # noqa: broad on purpose, see docstring
+            if not os.path.exists(exe) or not os.path.exists(drv):
+                raise vlib.BuildError("interpreter or driver disappeared during the run: %s" % ex)
             tp = os.path.join(ctx.dir, "runs", "c0000.trace")
             tail = ""
             try:
@@ -283,7 +296,7 @@ def judge(ctx, cases, exe, drv):
 
 def run(ctx):
     broken, log = ctx.prove("Properties_C04.v", "Properties_C04")
-    exe, drv = sync_common.build(ctx)
+    exe, drv = build(ctx)
     n = 420 if not ctx.thorough else 6000
     corpus = load_corpus()
     cases = corpus + [gen_case(ctx.rng) for _ in range(n)]
@@ -380,7 +393,7 @@ def replay(ctx, path):
     if not c:
         print("replay file carries no case (broken obligation: %s)" % body.get("what"))
         return 0
-    exe, drv = sync_common.build(ctx)
+    exe, drv = build(ctx)
     results, fails, mism = judge(ctx, [c], exe, drv)
     r = results[0]
     print("case:\n" + c["text"])
